@@ -7,7 +7,7 @@ ID = 'C19'
 RULE = ('Graphs: every connected graph with 2-6 nodes up to isomorphism (networkx graph atlas; 7 nodes in the thorough tier) '
         'and resolved molecules (hydrogens, rings, edge orders, cis / trans annotated double bonds in both relations); '
         'configuration tree per graph: node relabeling (identity, reversed, offset, interleaved insertion order, string '
-        'keys) x default_bond (1, 0.5, 2.5) x numpy RNG seed (pinned before the call). Histories: two layouts in a row on one graph object (plain / refined / refined with an unreachable energy target, '
+        'keys) x default_bond (1, 0.5, 2.5) x numpy RNG seed (pinned before the call) x align_with (None, two axes; first seed only). Histories: two layouts in a row on one graph object (plain / refined / refined with an unreachable energy target, '
         'different bond lengths). Oracle on vespr_layout: one position '
         'per node, each a finite 2-vector; bonded nodes farther apart than 1e-6 x default_bond; |mean bond length - '
         'default_bond| <= 1e-9 x default_bond. Non-trivial = graph has a cycle, a branch point or stereo annotation.')
@@ -145,10 +145,11 @@ def run_task(task, R):
         for rl in rls:
             for b in task['bonds']:
                 for sd in task['seeds']:
+                  for align in ((None, [1, 0], [3, 2]) if (sd == task['seeds'][0] and task['kind'] != 'refined') else (None,)):
                     ex.states += 1
                     ex.transitions += 1
                     inp = {'graph': name, 'edges': [list(e) for e in g.edges] if name.startswith(('atlas', 'tree')) else None,
-                           'refined': task['kind'] == 'refined',
+                           'refined': task['kind'] == 'refined', 'align': align,
                            'mol': MOLS[task['index']] if task['kind'] == 'mol' else None, 'relabel': rl, 'bond': b, 'npseed': sd}
                     R.record(inp, evaluate(inp, g))
     R.add_explorer(ex)
@@ -177,7 +178,10 @@ def evaluate(inp, g=None):
             pos = vespr_refined_layout(h, default_bond=b)
             tol = 5e-3      # restraint minimisation, not an exact rescaling (observed < 5e-5 on trees)
         else:
-            pos = vespr_layout(h, default_bond=b)
+            kw = {}
+            if inp.get('align') is not None:
+                kw['align_with'] = np.array(inp['align'], dtype=float)
+            pos = vespr_layout(h, default_bond=b, **kw)
     except Exception as e:
         return bad('raises:' + type(e).__name__, None, {'error': repr(e)[:150]}, nontrivial=nontrivial)
     if set(pos) != set(h.nodes):
